@@ -331,6 +331,6 @@ def run_case(case, rec, ctx):
 
 META = {
     "technique": "runtime contracts on formulate_isobar_wigner_d / formulate_isobar_cg_coefficients, a recording hook on the builder's per-chain method and a post-condition on formulate: every chain, amplitude, component and the intensity are compared numerically with an independent helicity-formula reference on the qrules transitions",
-    "level_text": "For every model formulated by the workload (fixtures in both formalisms, synthetic reactions with spins up to 3 and up to four decay nodes, coefficient and helicity-coupling mode, naming flags, with and without Breit-Wigner dynamics) each formulated chain must equal +-(its coefficient symbols) x prod_nodes conj-D x CG x CG x lineshape at 4 random points, the multiset of formulated chains must equal the permutation closure of the transitions over identical final-state particles (exactly once), every A^topology[outer] must be the coherent sum of its chains, every I component |sum|^2, and the intensity the incoherent sum over outer projections.",
+    "level_text": "For every model formulated by the workload (fixtures in both formalisms, synthetic reactions with spins up to 3 and up to four decay nodes, coefficient and helicity-coupling mode, naming flags, with and without Breit-Wigner dynamics) each formulated chain must equal +-(its coefficient symbols) x prod_nodes conj-D x CG x CG x lineshape at 4 random points, the multiset of formulated chains must equal the permutation closure of the transitions over identical final-state particles (exactly once), every A^topology[outer] must be the coherent sum of its chains, every I component |sum|^2, and the intensity the incoherent sum over outer projections. Chains that share a coefficient as parity partners (helicity formalism, default names) must have relative sign prod eta; mode 3 assigns the form-factor Breit-Wigner and the reference computes it with the node's own L.",
     "level_note": "Jacob-Wick convention with gamma=0 and 'helicity state = child with the smaller tuple of attached final-state ids' are taken from the documentation; unit signs per chain are left to C03.",
 }
